@@ -27,7 +27,7 @@ ASSUMPTIONS = [
     "tolerances: conditional mean within 2e-3 posterior sd + 1e-4 relative (float32 sampler state; worst deviation seen is reported as max_dev_*), Q and rates relative 1e-3, rate stabiliser in [0, 1e-3]",
     "a failed Cholesky leaves the element unchanged; such events are counted and skipped",
 ]
-REQUIRED = {"injected_failures_of_the_multivariate_draw": {"quick": 100, "thorough": 2000}, 
+REQUIRED = {"models_copied_before_more_data_arrived": {"quick": 40, "thorough": 800}, "injected_failures_of_the_multivariate_draw": {"quick": 100, "thorough": 2000}, 
     "draws_checked": {"quick": 30000, "thorough": 600000},
     "draws_W0": {"quick": 500, "thorough": 10000}, "draws_V0": {"quick": 800, "thorough": 16000}, "draws_W": {"quick": 500, "thorough": 10000},
     "draws_V2": {"quick": 800, "thorough": 16000}, "draws_V1": {"quick": 800, "thorough": 16000}, "draws_gamma": {"quick": 4000, "thorough": 80000},
@@ -454,6 +454,24 @@ def run_shard(rec, tier, seed, shard, nshards):
             except Exception as e:
                 rec.did_not_return("build-model", e)
                 continue
+            if later is not None and rng.random() < 0.5:
+                # a copy of the model (copy.deepcopy, as a caller does before trying something out) is a model of its
+                # own: what the copy is given later is its data, and the original keeps exactly what it had
+                import copy
+
+                try:
+                    twin = copy.deepcopy(model)
+                    n0, rows0 = int(model.n_obs()), (len(model.wrapped_model.y), len(model.wrapped_model.cline))
+                    twin.add_observations(later)
+                    rec.count("models_copied_before_more_data_arrived")
+                    rec.count("oracle_evals")
+                    same_ = int(model.n_obs()) == n0 and (len(model.wrapped_model.y), len(model.wrapped_model.cline)) == rows0
+                    rec.check(same_, "C08/copy/shares-data-with-the-original", lambda: "after add_observations on a deep copy the ORIGINAL holds %d observations (%d rows in its value list), %d before" % (int(model.n_obs()), len(model.wrapped_model.y), n0), w_info)
+                    rec.check(int(twin.n_obs()) == n0 + int(later.size), "C08/copy/shares-data-with-the-original", lambda: "the copy holds %d observations after it was given %d more than the %d it started with" % (int(twin.n_obs()), int(later.size), n0), w_info)
+                    twin.set_rng(np.random.default_rng(0))
+                    twin.step()
+                except Exception as e:
+                    rec.violation("C08/step/raises", "a deep copy of the model that was given more data raised %r" % (e,), w_info)
             faulty = bool(ci % 4 == 3)
             if faulty:
                 rec.count("chains_with_injected_draw_failures")
